@@ -30,6 +30,14 @@ OBLIGATIONS = [
      "statement": "every schedule: at most one controller thread is between setting _shutdown and returning from shutdown()/the destructor (only it runs a join loop)"},
     {"id": "C09_A2", "theorem": "Iora.C09.complete_implies_quiesced", "kind": "proved",
      "statement": "every schedule: _shutdownComplete is set only after a join loop has completed (what a second shutdown() caller waits for)"},
+    {"id": "C09_D1", "theorem": "Iora.C09.poller_epoch_positive", "kind": "proved",
+     "statement": "every schedule: a shutdown() caller on the already-shut-down path waits for a shutdown number > 0 read under _mutex while _shutdown is set (fixes/FC09d)"},
+    {"id": "C09_D2", "theorem": "Iora.C09.restart_keeps_complete", "kind": "proved",
+     "statement": "no step of reset() + start() changes _shutdownCompleteEpoch (any configuration, restart allowed): a restart cannot hide a completed shutdown from a waiting caller"},
+    {"id": "C09_D3", "theorem": "Iora.C09.poller_returns_when_completed", "kind": "proved",
+     "statement": "a waiting caller whose shutdown number is <= _shutdownCompleteEpoch returns at its next step (logs 7), also when _shutdown has been cleared by a restart meanwhile"},
+    {"id": "C09_E1", "theorem": "Iora.C09.spawn_failure_refused_or_has_worker", "kind": "proved",
+     "statement": "thread creation fails after the push (fixes/FC09e, function-level model spawnFailed): refused -> the queue is what it was before the push and the task is not in it; accepted -> the task is queued and _threads is non-empty"},
     {"id": "C09_P5a", "theorem": "Iora.C09.P5_exit_decision_with_empty_queue", "kind": "proved",
      "statement": "a worker enters its exit path only in a critical section in which the queue is empty"},
     {"id": "C09_P5a2", "theorem": "Iora.C09.P5_exit_decision_after_wait", "kind": "proved",
@@ -52,14 +60,14 @@ OBLIGATIONS = [
      "statement": "enqueueImpl: push, spawn decision and spawn inside one critical section, notify after unlock (Gen/TpSkel)"},
     {"id": "C09_SK2", "theorem": "Iora.C09.skel_tryEnqueueImpl", "kind": "conformance", "statement": "the same for tryEnqueueImpl"},
     {"id": "C09_SK3", "theorem": "Iora.C09.skel_spawn", "kind": "conformance",
-     "statement": "spawnWorkerLocked = create + register with no lock operation between; spawnWorker = lock / spawnWorkerLocked / unlock"},
+     "statement": "spawnWorkerLocked = create + register with no lock operation between; spawnWorker = lock / spawnWorkerLocked / unlock; discardNewestTaskLocked (fixes/FC09e) only touches _tasks"},
     {"id": "C09_SK4", "theorem": "Iora.C09.skel_worker", "kind": "conformance",
      "statement": "worker loop: wait, both exit decisions and pop in one critical section; every return under _mutex"},
     {"id": "C09_SK5", "theorem": "Iora.C09.skel_worker_hooks", "kind": "conformance", "statement": "only hook in the worker: tp:popped (or none)"},
     {"id": "C09_SK6", "theorem": "Iora.C09.skel_shutdown", "kind": "conformance",
-     "statement": "shutdown(): already-shut-down path unlocks, polls _shutdownComplete, then returns; owner sets _shutdown under _mutex, notify_all after unlock, stores _shutdownComplete after the join loop; join loops erase under _mutex, join outside; phase 4 detaches exactly under `mode == ShutdownMode::DETACHED`; phases 1..5"},
+     "statement": "shutdown(), WHOLE unit: already-shut-down path reads _shutdownEpoch under _mutex, unlocks, polls _shutdownCompleteEpoch with an ACQUIRE load, then returns; owner sets _shutdown and increments _shutdownEpoch under _mutex, notify_all after unlock, the three waits, the join loop (erase under _mutex, join outside) and last a RELEASE store of its own number; phase 1 and phase 4 whole (detach exactly under `mode == ShutdownMode::DETACHED`); getPendingTaskCount; phases 1..5; constructor defaults"},
     {"id": "C09_SK7", "theorem": "Iora.C09.skel_restart", "kind": "conformance",
-     "statement": "reset() empties _tasks / clears _threads under _mutex; start() clears _shutdown and _shutdownComplete under _mutex, opens _accepting, spawns with loop condition `i < workerCount`, workerCount = _workerScaling ? _initialSize : _maxSize"},
+     "statement": "reset() empties _tasks / clears _threads under _mutex; start() clears _shutdown under _mutex and does not touch _shutdownCompleteEpoch, opens _accepting, spawns with loop condition `i < workerCount`, workerCount = _workerScaling ? _initialSize : _maxSize"},
     {"id": "C09_SK8", "theorem": "Iora.C09.skel_ctor", "kind": "conformance",
      "statement": "constructor: same worker count and loop condition; default shutdown mode IMMEDIATE; _maxSize initialised by effectiveMaxSize(initialSize, maxSize) whose body is the clamp of Cfg.effMax"},
 ]
@@ -77,7 +85,7 @@ def gen_case(rng, hook, cat=None):
     (1-3 additional controller threads calling drain/stop/shutdown/submit concurrently), restart (stop, reset() + start(), more work,
     stop again; sometimes with submitters or a second controller running across the restart).  The shutdown mode is IMMEDIATE (2/3)
     or GRACEFUL (1/3); task bodies return, throw, or throw into an error handler that throws itself."""
-    cat = cat or rng.choice(["mixed", "mixed", "tight", "idle", "race", "race", "late", "nested", "multi", "multi", "restart"])
+    cat = cat or rng.choice(["mixed", "mixed", "tight", "idle", "race", "race", "late", "nested", "multi", "multi", "restart", "span", "detached", "detached"])
     init = rng.choice([0, 1, 1, 2, 3])
     mx = max(1, init) + rng.choice([0, 0, 1, 2])
     q = rng.choice([2, 3, 8, 8, 32])
@@ -128,6 +136,15 @@ def gen_case(rng, hook, cat=None):
         if rng.chance(1, 2):
             ops.append("s=" + acts(4))
     ctls = []
+    if cat == "span":
+        # FC09d: a controller is INSIDE shutdown()/stop() while thread 0 stops and restarts the pool; thread 0 joins it right after
+        # the restart (it must return on its own: its shutdown number is completed) or only after more work / the next stop
+        ctls.append("ctl " + rng.choice(["sd", "sd", "stop", "d=50 sd"]))
+        ops = [o for o in ops if o not in ("stop", "sd")] + ["c=0", rng.choice(["stop", "d=50"]), "stop", "rs"]
+        if rng.chance(1, 2):
+            ops.append("j")
+        ops += ["a=%s:%d" % (rng.choice("etr"), rng.below(nb)) for _ in range(rng.range(0, 2))]
+        ops += [rng.choice(["stop", "sd"])]
     if cat == "multi":
         # additional controller threads calling drain/stop/shutdown concurrently with thread 0 and with each other
         for i in range(rng.range(1, 3)):
@@ -166,9 +183,15 @@ def gen_case(rng, hook, cat=None):
             ops += ["rs", "a=e:%d" % rng.below(nb), "stop"]
     if rng.chance(1, 3):
         ops += rng.choice([["stop"], ["sd"], ["d=100"], ["a=t:%d" % rng.below(nb)]])
+    # IMMEDIATE or GRACEFUL (both join) or DETACHED.  A DETACHED pool is always stopped through the EXPLICIT path (shutdown()/stop(),
+    # which join in every mode) before the destructor runs: the destructor then finds _shutdown set and returns at once.  Only the
+    # destructor of a DETACHED pool that was never shut down detaches (the modelled exception; not generated: the object dies under
+    # its running workers).
+    mode = 2 if cat == "detached" else rng.choice([0, 0, 1, 2])
+    if mode == 2:
+        ops.append(rng.choice(["sd", "sd", "stop"]))
+        ops.append("sd")
     ops.append("x")
-    # IMMEDIATE or GRACEFUL (both join); DETACHED is excluded by hypothesis: its destructor returns while workers still use the object
-    mode = rng.choice([0, 0, 1])
     lines = ["reset %d %d %d %d %d" % (init, mx, q, mode, hook)] + bodies + ctls + ["main " + " ".join(ops)]
     seed = rng.range(1, 10 ** 9)
     run = "run %d %d %d %d" % (seed, idle, rng.choice([2, 8, 8, 50, 0]), rng.choice([0, 0, 0, 7]))
@@ -303,7 +326,8 @@ def parse_mon(l):
     if d.get("mlog", "-") != "-":
         for x in d["mlog"].split(","):
             a, _, b = x.partition("@")
-            mlog.append((int(a), int(b)))
+            bb = b.split("@")
+            mlog.append((int(a), int(bb[0]), int(bb[1]) if len(bb) > 1 else int(bb[0])))
     subtids = [int(x) for x in d["subtids"].split(",")] if d.get("subtids", "-") != "-" else []
     rsbegin = [int(x) for x in d["rsbegin"].split(",")] if d.get("rsbegin", "-") != "-" else []
     # `problems=` is the last key and may contain spaces
@@ -334,7 +358,7 @@ def monitor(case, r):
     m = parse_mon(r["mon"])
     if m["problems"] != "-":
         fails.append("MON: " + m["problems"].strip())
-    detached = case["cfg"]["detached"] == 1
+    detached = False    # DETACHED pools are stopped through the explicit path before `x` (gen_case): same post-conditions
     # worker bound: registered workers at every scheduling decision, and live worker OS threads along the trace
     if m["seen"] > m["max"]:
         fails.append("P6: %d workers registered in _threads, configured maximum %d" % (m["seen"], m["max"]))
@@ -392,14 +416,15 @@ def monitor(case, r):
     def epoch(x):
         return sum(1 for r0 in restarts if r0 < x)
     if not detached:
-        for code, q in m["mlog"]:
+        for code, q, q0 in m["mlog"]:
             if code not in (4, 7, 8):
                 continue
             what = {4: "stop()", 7: "shutdown()", 8: "~ThreadPool"}[code]
-            e = epoch(q)
+            # the epoch of the CALL: a caller that waits for another thread's shutdown may return after the pool was restarted
+            e = epoch(q0)
             for s in m["subs"]:
                 t = m["tasks"].get(s["id"])
-                if s["res"] == "a" and epoch(s["tick"]) == e and (t is None or t["dt"] < 0 or t["dt"] > q):
+                if s["res"] == "a" and epoch(s["tick"]) == e and s["tick"] < q and (t is None or t["dt"] < 0 or t["dt"] > q):
                     fails.append("P2: %s returned before accepted task %d had finished" % (what, s["id"]))
             for i, t in m["tasks"].items():
                 if t["st"] > q and epoch(t["st"]) == e:
@@ -518,13 +543,13 @@ def run(ctx: Ctx):
                         elif s["res"] in "dsf":
                             stats["refused_" + s["res"]] += 1
                     nontrivial = any(s["res"] == "a" for s in m["subs"])
-                    codes = [code for code, _ in m["mlog"]]
+                    codes = [x[0] for x in m["mlog"]]
                     stats["restarts"] += codes.count(10)
                     stats["restarts_refused"] += codes.count(11)
                     stats["returns_stop_shutdown_dtor"] += sum(1 for x in codes if x in (4, 7, 8))
                     # more than one shutdown()/stop() returned in the same epoch: a caller on the "already shut down" path
                     ep, n47 = 0, {}
-                    for code, _ in sorted(m["mlog"], key=lambda z: z[1]):
+                    for code, _, _ in sorted(m["mlog"], key=lambda z: z[1]):
                         if code == 10:
                             ep += 1
                         elif code in (4, 7):
@@ -533,6 +558,8 @@ def run(ctx: Ctx):
                     stats["workers_peak_hist"][str(m["seen"])] = stats["workers_peak_hist"].get(str(m["seen"]), 0) + 1
                 if c["lines"][0].split()[4] == "1":
                     stats["cases_graceful"] += 1
+                if c["lines"][0].split()[4] == "2":
+                    stats["cases_detached_explicit_stop"] = stats.get("cases_detached_explicit_stop", 0) + 1
                 if any(l.startswith("ctl ") for l in c["lines"]):
                     stats["cases_multi_controller"] += 1
                 for f in evs:
@@ -615,6 +642,7 @@ def run(ctx: Ctx):
             wave(cases2)
         if retry:
             wave(list(retry))
+        spawn_failures(ctx, rng.fork("spawnfail"), stats)
         if True:
             if not quick:
                 tsan_stress(ctx)
@@ -630,18 +658,77 @@ def run(ctx: Ctx):
         "the destructor is run by thread 0 only; a destructor that starts while another thread is still inside shutdown() is outside the theorems (C++ object lifetime; the model logs code 13 and the generator joins the controllers first)",
     ]
     ctx.assumptions += [
-        "ShutdownMode IMMEDIATE/GRACEFUL (DETACHED detaches instead of joining, its destructor returns while workers still use the object: excluded by hypothesis CfgOk.joined and not generated)",
+        "THEOREMS P2/P3/P5b/P6: ShutdownMode IMMEDIATE/GRACEFUL (hypothesis CfgOk.joined). DETACHED pools ARE generated, replayed by the model and judged by the same monitors, always stopped through the explicit path shutdown()/stop() (which joins in every mode - model: `jU` detaches only inside the destructor) before the destructor; only the destructor of a DETACHED pool that was never shut down detaches (modelled exception, not generated: the object dies under its workers)",
         "no restart after stop() in the THEOREMS (CfgOk.norestart); restart is covered by the tie and the monitors only",
-        "any number of controller threads may call drain/stop/shutdown/submit concurrently (modelled, Cfg.ctls); only one thread (thread 0) destroys or restarts the pool, and not while another controller is inside a call",
+        "any number of controller threads may call drain/stop/shutdown/submit concurrently (modelled, Cfg.ctls); only one thread (thread 0) destroys or restarts the pool; a controller may be INSIDE shutdown()/stop() while thread 0 restarts the pool (category `span`, fixes/FC09d), but the destructor starts only after the controllers were joined",
         "no call on the pool is in flight on another thread when the destructor starts (C++ object lifetime); submitters are joined before `x`",
         "granularity: one step = one pthread operation + the code up to the next one (DetSched); atomics are pre-emption points only at IORA_VERIF_POINT(\"tp:popped\"); the theorems do not depend on _activeThreads/_busyThreads",
-        "std::thread creation does not fail; tasks do nothing but submit/throw/return",
+        "in the interleaving model and its theorems std::thread creation does not fail; the failure path (fixes/FC09e: caught in the critical section, task taken back and call refused only when no worker exists) is tied by skel_enqueueImpl/skel_tryEnqueueImpl/skel_spawn and exercised on the real pool with pthread_create interposed (harness/c09_tp_spawnfail.cpp, implementation-only monitors); tasks do nothing but submit/throw/return",
         "the polling loops (drain, shutdown's waits, the wait for _shutdownComplete) make progress only under a fair scheduler; the adversarial completion of cut schedules is unfair by design, and a tail in which it starves the shutdown owner behind a polling controller ends at the step budget and is counted (`starved_tails`), not judged",
         "pthread mutex/condvar semantics, libstdc++ wait_for (time-out decided by the clock), std::packaged_task/future are modelled-not-verified",
     ]
     return ctx.finish(level="proof", rule="a case = one scripted scenario (config, task bodies, controller script, submitter scripts) + one DetSched schedule "
                       "(seed or choice list); evaluation = one complete run of the real pool whose full scheduling trace the Lean acceptor replayed; "
                       "distinct = distinct (scenario, schedule) pairs; non-trivial = at least one task was accepted and executed")
+
+
+def spawn_failures(ctx, rng, stats):
+    """fixes/FC09e: the real pool with pthread_create interposed (harness/c09_tp_spawnfail.cpp): chosen thread creations fail with
+    EAGAIN.  Monitors (implementation only): a refused submission (exception / false) never runs; an accepted one has run exactly
+    once when stop() has returned ok and its future holds the value; tryEnqueue never throws; nothing is refused when no creation
+    failed (queue bound never reached by construction)."""
+    hb = ctx.build_harness("harness/c09_tp_spawnfail.cpp", sanitize=False)
+    if not hb:
+        return
+    cases = ["case 1 4 8 1 1 45 e,r,t,e", "case 0 2 8 0 1 0 e,r", "case 0 2 8 0 2 0 t,r,e"]     # corpus/C09/FC09e-*.json
+    n = 24 if ctx.tier == "quick" else 300
+    while len(cases) < n:
+        init = rng.choice([0, 0, 1, 1, 2])
+        mx = max(1, init) + rng.choice([0, 1, 2, 3])
+        nacts = rng.range(1, 6)
+        acts = ",".join(rng.choice("etr") for _ in range(nacts))
+        # never inside the constructor: a constructor whose k-th initial worker cannot be created throws with the earlier workers
+        # still joinable in _threads => std::terminate (observation, outside the property: no pool exists yet)
+        frm = rng.range(init, init + 3)
+        cnt = rng.choice([0, 1, 1, 2, 3, 9])
+        busy = rng.choice([0, 0, 30, 45])
+        cases.append("case %d %d 8 %d %d %d %s" % (init, mx, frm, cnt, busy, acts))
+    out, rc, err = ctx.run_lines([hb], cases, timeout=600)
+    for c, l in zip(cases, out):
+        fails = []
+        head, _, tail = l.partition(" | ")
+        kv = dict(x.split("=") for x in tail.split())
+        stats["spawnfail_cases"] = stats.get("spawnfail_cases", 0) + 1
+        stats["spawnfail_failed_creations"] = stats.get("spawnfail_failed_creations", 0) + int(kv.get("failed", 0))
+        if kv.get("ctor") != "ok":
+            stats["spawnfail_ctor_threw"] = stats.get("spawnfail_ctor_threw", 0) + 1      # the constructor itself could not start its workers
+            continue
+        for tok in head.split()[1:]:
+            i, mode, res, ran, fut = tok.split(":")
+            ran = int(ran)
+            if res in "xf":
+                stats["spawnfail_refused"] = stats.get("spawnfail_refused", 0) + 1
+                if ran != 0:
+                    fails.append("P1: submission %s was refused (%s) after a failed thread creation and its task ran %d time(s)"
+                                 % (i, "exception" if res == "x" else "false", ran))
+                if int(kv["failed"]) == 0:
+                    fails.append("P4: submission %s refused although no thread creation failed, the pool was accepting and the queue not full" % i)
+            else:
+                stats["spawnfail_accepted"] = stats.get("spawnfail_accepted", 0) + 1
+                if kv["stop"] == "1" and ran != 1:
+                    fails.append("P2: accepted submission %s ran %d time(s) by the time stop() returned ok" % (i, ran))
+                if mode == "r" and kv["stop"] == "1" and fut != "v":
+                    fails.append("P4: future of accepted submission %s is `%s` after stop()" % (i, fut))
+            if mode == "t" and res == "x":
+                fails.append("P4: tryEnqueue threw instead of returning false (submission %s)" % i)
+        ctx.count_case("spawnfail " + c + " " + l, nontrivial=int(kv.get("failed", 0)) > 0)
+        if fails:
+            ctx.violation("property", fails[0], {"category": "spawnfail", "lines": [c], "answer": l, "failures": fails[:6],
+                          "how": "feed `lines` to harness/c09_tp_spawnfail.cpp (pthread_create interposed: creations failFrom..failFrom+failCount-1 answer EAGAIN)"},
+                          found_input=True)
+    if rc != 0 or len(out) != len(cases):
+        ctx.violation("property", "CRASH: the spawn-failure harness died after %d of %d cases (rc=%s): %s" % (len(out), len(cases), rc, err[-300:]),
+                      {"category": "spawnfail", "lines": cases[len(out):len(out) + 1], "stderr": err[-1500:]}, found_input=True)
 
 
 def tsan_stress(ctx):
